@@ -15,12 +15,22 @@
     model/Views.v (the per-machine job-id view that Schedule.to_dict writes).
     No bound on the number of jobs, machines or operations anywhere.
 
-    Positive durations are needed: with zero durations a cyclic [P] can have a
+    §2 connects the wording "the precedence graph of P is acyclic": [prec I P]
+    (proofs/FjsSchedulable.v, restated in [C14_precedence_def]) is "job order ∪
+    machine order of P" on operations (job, position), where row m of P is
+    decoded into operations by reading the c-th occurrence of job id j as the
+    c-th operation of job j that runs on machine m ([decode_row]); [acyclic]
+    says that its transitive closure ([clos_trans], Coq.Relations) is
+    irreflexive. This closes the gap named in C14_accept_iff_acyclic_partial.
+
+    Positive durations are needed in §1: with zero durations a cyclic [P] can have a
     (degenerate) feasible schedule that the library nevertheless rejects, see
     the remark in properties/C14.v §8 and [exC] there. *)
 From JSL Require Import Base Instance Dstate Filters World Feasible
   Views ViewsSpec ViewsProofs FjsIff FjsPerm FjsSchedulable.
-From Coq Require Import Lia Permutation.
+From Coq Require Import Lia Permutation Relations.
+
+(** * 1. Rejected exactly when no schedule has these sequences *)
 
 (** The definition used below, restated so that it can be read here. *)
 Theorem C14_realises_def :
@@ -113,4 +123,95 @@ Proof.
     exact (C14_schedule_order_linearises exP exP_ok exP_S Hp Hs eq_refl Hf Hc HP).
   - assert (Hrej : from_job_sequences exP (map (map Z.of_nat) exP_bad) = FErr EValidation) by (vm_compute; reflexivity).
     split; [exact Hrej|]. apply (C14_rejected_iff_no_schedule exP exP_bad Hp Hs Hbad). exact Hrej.
+Qed.
+
+(** * 2. Accepted exactly when the precedence relation has no cycle *)
+
+(** The relation, unfolded: same job and earlier position, or both in the
+    decoded row of some machine, the first one earlier. *)
+Theorem C14_precedence_def :
+  forall (I : instance) (P : list (list nat)) (a b : nat * nat),
+    prec I P a b <->
+    (In a (all_keys I) /\ In b (all_keys I) /\ fst a = fst b /\ (snd a < snd b)%nat) \/
+    (exists m, (m < num_machines I)%nat /\
+               exists l1 l2 l3, decode_row I m [] (nth m P []) = l1 ++ a :: l2 ++ b :: l3).
+Proof. exact prec_def. Qed.
+Print Assumptions C14_precedence_def.
+
+(** The decoding of a row of job ids, unfolded: the entry [j] that has been
+    seen c times before stands for the c-th operation of job [j] on machine [m]. *)
+Theorem C14_decode_row_def :
+  forall (I : instance) (m : nat) (seen : list nat) (j : nat) (t : list nat),
+    decode_row I m seen [] = [] /\
+    decode_row I m seen (j :: t) =
+      (j, nth (length (filter (Nat.eqb j) seen))
+              (filter (fun p => mem_nat m (kmachines I (j, p))) (seq 0 (length (get_job I j)))) 0%nat)
+      :: decode_row I m (j :: seen) t.
+Proof. exact decode_row_def. Qed.
+Print Assumptions C14_decode_row_def.
+
+Theorem C14_acyclic_def :
+  forall (I : instance) (P : list (list nat)),
+    acyclic I P <-> forall k, ~ clos_trans (nat * nat) (prec I P) k k.
+Proof. exact acyclic_def. Qed.
+Print Assumptions C14_acyclic_def.
+
+(** The order-theoretic bridge (topological sort of a finite relation): a
+    linear extension exists iff there is no cycle. *)
+Theorem C14_linear_extension_iff_acyclic :
+  forall (I : instance) (P : list (list nat)),
+    true_permutation I P -> ((exists L, linearises I P L) <-> acyclic I P).
+Proof. exact linearisable_iff_acyclic. Qed.
+Print Assumptions C14_linear_extension_iff_acyclic.
+
+(** "accepted(P) <=> precedence graph of P acyclic" — any durations >= 0. *)
+Theorem C14_accept_iff_acyclic :
+  forall (I : instance) (P : list (list nat)),
+    valid I -> single_machine I -> true_permutation I P ->
+    ((exists rows, from_job_sequences I (map (map Z.of_nat) P) = FOk rows) <-> acyclic I P).
+Proof. exact accept_iff_acyclic. Qed.
+Print Assumptions C14_accept_iff_acyclic.
+
+(** Constructively: the ValidationError comes with an actual cycle. *)
+Theorem C14_rejected_iff_cycle :
+  forall (I : instance) (P : list (list nat)),
+    valid I -> single_machine I -> true_permutation I P ->
+    (from_job_sequences I (map (map Z.of_nat) P) = FErr EValidation <->
+     exists k, clos_trans (nat * nat) (prec I P) k k).
+Proof. exact rejected_iff_cycle. Qed.
+Print Assumptions C14_rejected_iff_cycle.
+
+(** With positive durations the three readings coincide. *)
+Theorem C14_schedule_iff_acyclic :
+  forall (I : instance) (P : list (list nat)),
+    positive I -> single_machine I -> true_permutation I P ->
+    ((exists S, feasible I S /\ complete I S /\ job_sequences S = map (map Z.of_nat) P) <-> acyclic I P).
+Proof. exact schedule_iff_acyclic. Qed.
+Print Assumptions C14_schedule_iff_acyclic.
+
+(** Non-vacuity: the decoding with recirculation (job 0 visits machine 0
+    twice); the explicit 4-cycle of [exP_bad]; [exP_ok] is acyclic. *)
+Definition exR : instance :=
+  [[mkop [0%nat] 3; mkop [1%nat] 1; mkop [0%nat] 2]; [mkop [1%nat] 4; mkop [0%nat] 1]].
+Example C14_acyclic_nonvacuous :
+  decode exR [[0; 1; 0]; [1; 0]]%nat 0 = [(0, 0); (1, 1); (0, 2)]%nat /\
+  decode exR [[0; 0; 1]; [1; 0]]%nat 0 = [(0, 0); (0, 2); (1, 1)]%nat /\
+  decode exP exP_bad 0 = [(1, 1); (0, 0)]%nat /\ decode exP exP_bad 1 = [(0, 1); (1, 0)]%nat /\
+  clos_trans _ (prec exP exP_bad) (0, 0)%nat (0, 0)%nat /\
+  ~ acyclic exP exP_bad /\ acyclic exP exP_ok.
+Proof.
+  destruct C14_schedulable_nonvacuous as (Hp & Hs & Hok & Hbad & Hacc & _).
+  assert (Hv : valid exP) by (apply validb_valid; reflexivity).
+  assert (Hcyc : clos_trans _ (prec exP exP_bad) (0, 0)%nat (0, 0)%nat).
+  { apply t_trans with (y := (0, 1)%nat).
+    - apply t_step. left. vm_compute. repeat split; auto.
+    - apply t_trans with (y := (1, 0)%nat).
+      + apply t_step. right. exists 1%nat. split; [apply Nat.ltb_lt; reflexivity|]. exists [], [], []. reflexivity.
+      + apply t_trans with (y := (1, 1)%nat).
+        * apply t_step. left. vm_compute. repeat split; auto.
+        * apply t_step. right. exists 0%nat. split; [apply Nat.ltb_lt; reflexivity|]. exists [], [], []. reflexivity. }
+  split; [vm_compute; reflexivity|]. split; [vm_compute; reflexivity|].
+  split; [vm_compute; reflexivity|]. split; [vm_compute; reflexivity|]. split; [exact Hcyc|]. split.
+  - intros H. exact (H _ Hcyc).
+  - apply (C14_accept_iff_acyclic exP exP_ok Hv Hs Hok). eexists. exact Hacc.
 Qed.
